@@ -132,6 +132,12 @@ def cells(tier):
     for okind in ("Flowtime", "Priorities", "StartEarliest", "StartLatest", "GreatestStart"):
         tasks = [fam.fx("t0", 2, priority=3), fam.vr("t1", 1, 2, priority=0), fam.fx("t2", 1, optional=True, priority=2)]
         out.append((f"obj.{okind}", fam.base(5, tasks, objectives=[{"kind": okind}]), 5))
+    out.append(("obj.FlowtimeSingleResource", fam.base(7, [fam.fx("t0", 2), fam.vr("t1", 1, 2), fam.fx("t2", 1)],
+                                                       workers=W[:1], requirements=on([{"name": "t0"}, {"name": "t1"},
+                                                                                       {"name": "t2"}]),
+                                                       constraints=[{"id": "a", "kind": "TaskStartAfter", "task": "t2",
+                                                                     "value": 3, "mode": "lax"}],
+                                                       objectives=[{"kind": "FlowtimeSingleResource", "resource": "w0"}]), 7))
     # indicator constraints
     out.append(("IndicatorTarget.util", fam.base(10, [fam.vr("t0", 1, 6)], workers=W[:1], requirements=on([{"name": "t0"}]),
                                                  indicators=[{"id": "i", "kind": "Utilization", "resource": "w0"}],
@@ -158,6 +164,10 @@ def generate(tier, seed):
             for optimizer in ("incremental", "optimize"):
                 cases.append({"cid": f"opt-{name}-{optimizer}", "family": "objective", "kind": "solve", "spec": spec,
                               "plan": {"solver": {"optimizer": optimizer, "max_time": 20}}})
+            # the value delivered with an interrupted optimisation still has to match the schedule
+            for k in (1, 2):
+                cases.append({"cid": f"opt-{name}-maxiter{k}", "family": "objective-interrupted", "kind": "solve",
+                              "spec": spec, "plan": {"solver": {"optimizer": "incremental", "max_iter": k, "max_time": 20}}})
             continue
         # steer: minimise and maximise each indicator itself
         for ind in spec["indicators"]:
